@@ -75,6 +75,10 @@ class Model:
                 def on_h(self, *args):
                     return rec('class', '/a', 'h', args)
         c.register_namespace(NS('/a'))
+        # unrelated function handlers next to the class-based namespace and
+        # on the catch-all namespace must not disturb routing or arguments
+        c.on('unrelated', h, namespace='/a')
+        c.on('unrelated2', h, namespace='*')
         r = w.connect(script=[['0{"sid":"s1"}'], ['0/a,{"sid":"s2"}']],
                       namespaces=list(NSS))
         if r[0] != 'ok':
